@@ -2,6 +2,14 @@
 """Regenerates MANIFEST.json from the table below (kept in one place so that it stays valid)."""
 import json, sys
 CHECKS = {
+ "C18": dict(
+   text="EMSA-PSS of the real blind-RSA code decided against RFC 8017 §9.1.1/§9.1.2 (the algorithm crypto/rsa.VerifyPSS implements): emsaPSSVerify accepts exactly the encoded messages the RFC calls consistent, for EVERY EM byte string (emBits mod 8 in {7,0,1}, salted and salt-length-equals-hash variants), emsaPSSEncode produces maskedDB||H||0xbc byte for byte and its output verifies; real mgf1XOR counter logic.",
+   note="Hash function is an uninterpreted function of its input bytes; small moduli (emLen 67..68) so that every EM byte is symbolic; RSA exponentiation, blinding and the partially-blind key derivation not yet covered.",
+   ref="§4 C18"),
+ "C20": dict(
+   text="Access-structure level of CP-ABE decided by SMT: for every formula given by arbitrary gate tuples (class/in0/in1/out symbolic; 1 gate quick, 2 gates thorough) and every set of available input wires, Formula.satisfaction succeeds only on well-formed trees that evaluate to true, returns only available wires which by themselves satisfy the tree, and accepts every satisfiable well-formed tree.",
+   note="Pairing-based encapsulation/decapsulation algebra and the policy-language parser are not covered; larger formulas outside the bound.",
+   ref="§4 C20"),
  "C16": dict(
    text="DLEQ proofs (zk/dleq, the proof system of the verifiable OPRF modes) run over an abstract group whose scalars are SMT reals: for every key, randomness, generator and batch (1 and 2 elements, all exponents symbolic) the honest proof verifies - the verifier's recomputed commitments equal the prover's as polynomial identities and the challenge is recomputed from the same transcript (hash, hash-to-scalar and element encoding as uninterpreted functions).",
    note="Completeness only; rejection of tampered proofs holds modulo hash collisions and is not claimed; OPRF blinding, qndleq, Schnorr and OT not yet covered; characteristic-0 model of the scalar field (identities with the same non-zero denominators transfer to every field).",
